@@ -1,4 +1,4 @@
-CONSTANTS Texts = {"t1", "t2", "t3"} Opts = {"o1", "o2", "o3"} Capacity = 2 MaxHist = 4
+CONSTANTS Kinds = {"k1", "k2"} Texts = {"t1", "t2"} Opts = {"o1", "o2"} Capacity = 2 MaxHist = 4
 DEV = {"KeyOmitsOptions"}
 SPECIFICATION Spec
 INVARIANTS Transparent Bounded 
